@@ -245,5 +245,66 @@ def write_random_sites():
     return [f'random sites: {len(sites)} call sites extracted' + (' (changed)' if changed else '')]
 
 
+# ------------------------------------------------------------------------- persistent-state sites
+def _mutable_expr(v):
+    """can evaluating this expression once (at import / class creation / def time) produce an object that later calls can change?"""
+    if v is None or isinstance(v, (ast.Constant, ast.Name, ast.Attribute, ast.Lambda)): return False
+    if isinstance(v, ast.Tuple): return any(_mutable_expr(e) for e in v.elts)
+    if isinstance(v, ast.UnaryOp): return _mutable_expr(v.operand)
+    if isinstance(v, ast.BinOp): return _mutable_expr(v.left) or _mutable_expr(v.right)
+    if isinstance(v, ast.IfExp): return _mutable_expr(v.body) or _mutable_expr(v.orelse)
+    return True        # displays, comprehensions, calls (dict(), np.zeros(...), OrderedDict() ...), subscripts, ...
+
+
+def extract_persistent_sites():
+    """(file, line, kind, name): every place where state can outlive a call — module-level and class-level assignments of
+    mutable objects, mutable default arguments, memoising decorators, `global` statements"""
+    sites = []
+    root = os.path.join(common.REPO, 'synapgrad')
+    for dp, _, fs in os.walk(root):
+        for f in sorted(fs):
+            if not f.endswith('.py'): continue
+            path = os.path.join(dp, f); rel = os.path.relpath(path, common.REPO)
+            try:
+                tree = ast.parse(open(path).read())
+            except SyntaxError:
+                sites.append((rel, 0, 'unparsable', f)); continue
+            def targets(n):
+                ts = n.targets if isinstance(n, ast.Assign) else [n.target]
+                return ','.join(ast.unparse(t) for t in ts)
+            for n in tree.body:
+                if isinstance(n, (ast.Assign, ast.AnnAssign, ast.AugAssign)) and _mutable_expr(n.value):
+                    sites.append((rel, n.lineno, 'module', targets(n) if not isinstance(n, ast.AugAssign) else ast.unparse(n.target)))
+            for n in ast.walk(tree):
+                if isinstance(n, ast.ClassDef):
+                    for m in n.body:
+                        if isinstance(m, (ast.Assign, ast.AnnAssign)) and _mutable_expr(m.value):
+                            sites.append((rel, m.lineno, 'class', f'{n.name}.{targets(m)}'))
+                if isinstance(n, (ast.FunctionDef, ast.AsyncFunctionDef, ast.Lambda)):
+                    nm = getattr(n, 'name', '<lambda>')
+                    for d in list(n.args.defaults) + [d for d in n.args.kw_defaults if d is not None]:
+                        if _mutable_expr(d): sites.append((rel, getattr(n, 'lineno', 0), 'default', f'{nm}({ast.unparse(d)})'))
+                    for d in getattr(n, 'decorator_list', []):
+                        if re.search(r'cache|memo', ast.unparse(d)): sites.append((rel, n.lineno, 'cache', nm))
+                if isinstance(n, ast.Global):
+                    for g in n.names: sites.append((rel, n.lineno, 'global', g))
+                if isinstance(n, ast.Call) and re.search(r'(^|\.)(setdefault|__dict__)$', ast.unparse(n.func)) and False:
+                    pass
+    return sorted(set(sites))
+
+
+def write_persistent_sites():
+    sites = extract_persistent_sites()
+    rows = [f"  ⟨{lean_str(rel)}, {ln}, {lean_str(kind)}, {lean_str(name)}⟩" for rel, ln, kind, name in sites]
+    text = ('import SynapModel.OpTableDefs\n'
+            '/-! GENERATED by harness/extract.py from /repo/synapgrad/**/*.py — do not edit.\n'
+            '    Every place where state can outlive a call: module- and class-level mutable objects, mutable default\n'
+            '    arguments, memoising decorators, `global` statements. -/\n'
+            'namespace Synap.Generated\nopen Synap.OpTable\n\n'
+            'def persistentSites : List PersistentSite := [\n' + ',\n'.join(rows) + '\n]\n\nend Synap.Generated\n')
+    changed = _write_if_changed(os.path.join(GEN_DIR, 'PersistentSites.lean'), text)
+    return [f'persistent-state sites: {len(sites)} extracted' + (' (changed)' if changed else '')]
+
+
 if __name__ == '__main__':
-    print(write_optable(), write_random_sites())
+    print(write_optable(), write_random_sites(), write_persistent_sites())
